@@ -650,6 +650,34 @@ def run_accessors(ctx: Ctx) -> None:
                 return True, ""
             _guard(ctx, "T8.accessors", f"euler:{order_arg}:{kind}", fM, f"EulerRotation order={order_arg!r} params={'parameter' if kind else 'buffer'}", th)
 
+    # the inverted transform (t.inverse(), a copy with the invert flag) for every one of the twelve orders: its matrix is the transpose
+    # of R_order(a) — the product of the elementary rotations by the negated angles in the *reversed* order — and composes to I both ways
+    all_orders = ["".join(p_) for p_ in itertools.permutations("XYZ")] + [a_ + b_ + a_ for a_ in "XYZ" for b_ in "XYZ" if a_ != b_]
+    for order in all_orders:
+        def thi(order=order):
+            reset_relations()
+            fresh_facts()
+            it = make_interp(ctx)
+            a, cs = _angles(3)
+            grid = it.new(Grid, size=(3, 3, 3))
+            ci = prog.cls(L, "EulerRotation")
+            t = it.new(ci, grid, params=False, order=order)
+            it.method(t, "angles_", STensor.from_flat(a, [1, 3]))
+            R = symt.matmul(symt.matmul(elem(order[0], *cs[0]), elem(order[1], *cs[1])), elem(order[2], *cs[2]))
+            M = it.method(t, "tensor")[0]
+            if not teq(M, R):
+                return False, f"order={order}: tensor() is not the product of the elementary rotations in the stored order"
+            for via in ("inverse", "inv"):
+                inv = it.getattr(t, "inv") if via == "inv" else it.method(t, "inverse")
+                Mi = it.method(inv, "tensor")[0]
+                I3 = symt.eye(3)
+                if not teq(Mi, R.transpose(0, 1)) or not teq(symt.matmul(Mi, M), I3) or not teq(symt.matmul(M, Mi), I3):
+                    return False, f"order={order}: the matrix of t.{via} is not the inverse (transpose) of the rotation R_{order}(a)"
+                if not teq(it.method(it.method(inv, "inverse"), "tensor")[0], R):
+                    return False, f"order={order}: t.{via}.inverse() is not the rotation again"
+            return True, ""
+        _guard(ctx, "T8.accessors", f"euler-inverted:{order}", fM, f"EulerRotation order={order!r} inverted", thi)
+
     def th2d():
         reset_relations()
         fresh_facts()
